@@ -1,12 +1,102 @@
 /-
-C03 — symmetries.  (Theorem layer under construction: sign laws of the softfloat and their
-lifting to the regenerated `square` programs; the libm-based identities are decided by search.)
+C03 — symmetries, bit for bit.  Theorems on the programs regenerated from the current source, in
+the bit-exact softfloat, for EVERY input pattern (NaN, infinities, zeros and subnormals included):
+complex `square` commutes with conjugation; real `square` and `absolute` are even.  `negN` is
+negation that leaves NaN alone (the model has one NaN: "NaN matching NaN").
+The symmetries of the libm-based algorithms are decided by search (fav/props/c03.py).
 -/
+import FAVerif.Lemmas.SoftSign
 import FAVerif.Generated.C03
 
 namespace FAVerif.Props.C03
-open FAVerif.IR FAVerif.FP FAVerif.Gen.C03
+open FAVerif.IR FAVerif.FP FAVerif.Gen.C03 FAVerif.SoftRound
 
 theorem generated_wf : ∀ p ∈ FAVerif.Gen.C03.all, p.2.wf = true := by decide +kernel
+
+/-- conj on result lists -/
+def conjOut (f : Fmt) : List Nat → List Nat
+  | [re, im] => [re, negN f im]
+  | l => l
+
+/-- **square(conj z) = conj(square z)**, complex64: real parts identical bit for bit, imaginary
+parts negated (NaN stays NaN) — for all patterns x, y, no hypothesis. -/
+theorem conj_square_c64 (lib : Libm) (x y : Nat) :
+    square_complex64.eval lib [x, FAVerif.FP.neg binary32 y] = (square_complex64.eval lib [x, y]).map (conjOut binary32) := by
+  have h : WF binary32 := ⟨by decide, by decide⟩
+  simp only [Prog.eval, square_complex64, evalNodes, evalNode, b2n]
+  simp [conjOut]
+  have e1 := abs_neg_eq binary32 h y
+  have e2 := sub_neg_eq_add binary32 h x y
+  have e3 := neg_add_eq_sub binary32 h x y
+  have e4 := mul_neg_left binary32 h y x
+  have e5 := mul_negN_right binary32 h 1073741824 (FAVerif.FP.mul binary32 y x)
+  simp only [binary32] at e1 e2 e3 e4 e5 ⊢
+  simp only [e1, e2, e3, e4, e5]
+  refine ⟨?_, trivial⟩
+  rw [mul_comm' _ (FAVerif.FP.add _ x y) _, add_comm' _ x y]
+
+theorem conj_square_c128 (lib : Libm) (x y : Nat) :
+    square_complex128.eval lib [x, FAVerif.FP.neg binary64 y] = (square_complex128.eval lib [x, y]).map (conjOut binary64) := by
+  have h : WF binary64 := ⟨by decide, by decide⟩
+  simp only [Prog.eval, square_complex128, evalNodes, evalNode, b2n]
+  simp [conjOut]
+  have e1 := abs_neg_eq binary64 h y
+  have e2 := sub_neg_eq_add binary64 h x y
+  have e3 := neg_add_eq_sub binary64 h x y
+  have e4 := mul_neg_left binary64 h y x
+  have e5 := mul_negN_right binary64 h 4611686018427387904 (FAVerif.FP.mul binary64 y x)
+  simp only [binary64] at e1 e2 e3 e4 e5 ⊢
+  simp only [e1, e2, e3, e4, e5]
+  refine ⟨?_, trivial⟩
+  rw [mul_comm' _ (FAVerif.FP.add _ x y) _, add_comm' _ x y]
+
+/-- **real square is even**: square(−x) = square(x) bit for bit, for every pattern. -/
+theorem even_square_real (lib : Libm) (x : Nat) :
+    square_float32.eval lib [FAVerif.FP.neg binary32 x] = square_float32.eval lib [x] ∧
+    square_float64.eval lib [FAVerif.FP.neg binary64 x] = square_float64.eval lib [x] := by
+  have h32 : WF binary32 := ⟨by decide, by decide⟩
+  have h64 : WF binary64 := ⟨by decide, by decide⟩
+  constructor
+  · simp only [Prog.eval, square_float32, evalNodes, evalNode]
+    simp
+    have := mul_neg_left binary32 h32 x (FAVerif.FP.neg binary32 x)
+    have e2 := mul_neg_right binary32 h32 x x
+    simp only [binary32] at this e2 ⊢
+    rw [this, e2]; exact negN_negN binary32 h32 _
+  · simp only [Prog.eval, square_float64, evalNodes, evalNode]
+    simp
+    have := mul_neg_left binary64 h64 x (FAVerif.FP.neg binary64 x)
+    have e2 := mul_neg_right binary64 h64 x x
+    simp only [binary64] at this e2 ⊢
+    rw [this, e2]; exact negN_negN binary64 h64 _
+
+/-- **real absolute is even**, for every pattern. -/
+theorem even_absolute_real (lib : Libm) (x : Nat) :
+    absolute_float32.eval lib [FAVerif.FP.neg binary32 x] = absolute_float32.eval lib [x] ∧
+    absolute_float64.eval lib [FAVerif.FP.neg binary64 x] = absolute_float64.eval lib [x] := by
+  constructor
+  · simp only [Prog.eval, absolute_float32, evalNodes, evalNode]
+    simp
+    have := abs_neg_eq binary32 ⟨by decide, by decide⟩ x
+    simp only [binary32] at this ⊢
+    exact this
+  · simp only [Prog.eval, absolute_float64, evalNodes, evalNode]
+    simp
+    have := abs_neg_eq binary64 ⟨by decide, by decide⟩ x
+    simp only [binary64] at this ⊢
+    exact this
+
+/-- The sign laws of the softfloat the theorems above rest on, for every format with p ≥ 2, ew ≥ 2
+and every pattern. -/
+theorem soft_sign_laws (f : Fmt) (hf : 2 ≤ f.p ∧ 2 ≤ f.ew) (a b : Nat) :
+    FAVerif.FP.abs f (FAVerif.FP.neg f a) = FAVerif.FP.abs f a ∧
+    FAVerif.FP.neg f (FAVerif.FP.neg f a) = a ∧
+    FAVerif.FP.add f a b = FAVerif.FP.add f b a ∧
+    FAVerif.FP.mul f a b = FAVerif.FP.mul f b a ∧
+    FAVerif.FP.sub f a (FAVerif.FP.neg f b) = FAVerif.FP.add f a b ∧
+    FAVerif.FP.add f (FAVerif.FP.neg f b) a = FAVerif.FP.sub f a b ∧
+    FAVerif.FP.mul f (FAVerif.FP.neg f a) b = negN f (FAVerif.FP.mul f a b) :=
+  ⟨abs_neg_eq f ⟨hf.1, hf.2⟩ a, neg_neg' f ⟨hf.1, hf.2⟩ a, add_comm' f a b, mul_comm' f a b,
+   sub_neg_eq_add f ⟨hf.1, hf.2⟩ a b, neg_add_eq_sub f ⟨hf.1, hf.2⟩ a b, mul_neg_left f ⟨hf.1, hf.2⟩ a b⟩
 
 end FAVerif.Props.C03
